@@ -206,13 +206,15 @@ class OverridableProbe(Probe):
     """
 
     def _make_rule(self, sel, probe_type):
-        if probe_type != "total" and (sel.focus or probe_type == "immediate"):
+        if probe_type != "total" and sel.focus:
             return Immediate(
                 sel, intercept=self._make_emitter(sel), pass_info=True
             )
         else:
+            # Only the focus variable of an immediate selector is overridable
             raise Exception(
                 "OverridableProbe must use the 'immediate' probe type"
+                " and a selector with a focus variable"
             )
 
     def override(self, setter=_identity):
